@@ -24,6 +24,7 @@ def declare(spec):
         'max_retry': INT, 'res_name': STR, 'evpub_socket': Ref('PubSocket'), 'sockets': VAL,
         'arbiter': Ref('Arbiter'), 'cmd': VAL, 'args': VAL, 'priority': INT, 'autostart': BOOL,
         'stream_redirector': Ref('Redirector'), 'hooks': Dict(STR, VAL), 'ignore_hook_failure': List(STR),
+        'stdout_stream': VAL, 'stderr_stream': VAL,
     })
     spec.Class('PubSocket', fields={'closed': BOOL})
     spec.Class('Arbiter', qual='circus.arbiter:Arbiter', fields={
